@@ -180,3 +180,30 @@ _m("C13",
    "the cache after each injected fault (its structural parts are decided under C03 / C04 / C14).",
    "error-flow closure (backward may-depend value flow cut at discarding combinators) + tolerated-discard table + adaptor table",
    "exhaustive static analysis of error propagation for every fallible call site (necessary condition of truthful results)")
+
+_m("C05",
+   "(a) Every INDEX_INSERT opens the bucket append+create only (no write / truncate / create_new): earlier records are never "
+   "overwritten. (b) Every lookup (found by role: returns Option<Metadata> from a bucket reader) consumes the validated record "
+   "stream of bucket_path(cache, key) — key passed unchanged — with exactly one full-traversal fold starting from None (no "
+   "early-terminating adaptor), returns the fold's result, and the fold closure's extracted decision table (all entry→return "
+   "paths, labelled by the switches on `entry.key == key`, on the record's integrity and on its parse) equals the oracle: key "
+   "differs → keep; key equal ∧ tombstone → clear; key equal ∧ parses → replace by *this* record (every Metadata field from the "
+   "same-named record field); key equal ∧ unparsable → keep. Hence the last matching valid record wins and a tombstone hides "
+   "earlier ones. A structurally different algorithm is reported as UNRECOGNISED-IDIOM (stated residual risk).",
+   "The history → result mapping itself for concrete histories; foreign records placed in a bucket; interleaving of sync and async "
+   "callers at run time; SHA-1 collisions.",
+   "decision-table extraction by path enumeration over the fold closure's MIR + open-flag folding + identity value flow",
+   "exhaustive static analysis of the lookup algorithm's shape in every configuration (necessary conditions)")
+
+_m("C06",
+   "For every BUCKET_READER (sync and async, found by role) of every configuration: (a) trust gate — the record's JSON is "
+   "parsed at exactly one site, reachable only through the true edge of SHA-256-hex(fields[1]) == fields[0] where both operands "
+   "are elements 1 and 0 of the same TAB-split of the line, the parsed string is that fields[1], and the split has exactly two "
+   "fields; (b) skip-and-continue — the only exits of the line loop are end-of-stream (leading to the success return) and a "
+   "genuine read error whose Err is returned; an undecodable (InvalidData) line, a wrong field count, a checksum mismatch and a "
+   "JSON error all stay inside the loop: no rejection stops the stream; (c) the vector returned is exactly the records pushed "
+   "from the parse's Ok payload. The same oracle is applied to the sync and the async reader, hence they agree (also C12).",
+   "String-level facts: how lines()/split('\\t') carve up a particular damaged byte sequence, which two records a destroyed "
+   "newline fuses, collision resistance of SHA-256; field agreement of returned entries is decided under C11.",
+   "MIR gate-cut reachability (trust gate) + loop-exit classification + identity value flow",
+   "exhaustive static analysis of the readers' validation structure in every configuration (necessary conditions)")
